@@ -2,6 +2,7 @@ package frugal
 
 import (
 	"context"
+	"errors"
 
 	"github.com/apache/thrift/lib/go/thrift"
 )
@@ -67,6 +68,11 @@ func (client *FStandardClient) Call(fctx FContext, method string, args, result t
 	resultTransport, err := client.transport.Request(fctx, payload)
 	if err != nil {
 		return err
+	}
+	if resultTransport == nil {
+		// An empty frame is the reply to a oneway; a two-way call needs a response.
+		return thrift.NewTProtocolExceptionWithType(thrift.INVALID_DATA,
+			errors.New("frugal: empty response to a two-way call"))
 	}
 	return client.processReply(ctx, fctx, method, result, resultTransport)
 }
